@@ -14,12 +14,10 @@ def k1Sig : Sig := { nIn := 0, variadic := false, isMethod := false, numOut := 1
 def k1Cfg : Config := { dflt := none, conds := [(.when [], 1), (.when [], 2)] }
 
 theorem k1_wf : WFfull k1Sig k1Cfg := by
-  refine ⟨?_, by simp [k1Cfg], ?_⟩
-  · intro p hp
-    simp only [k1Cfg, List.mem_cons, List.not_mem_nil, or_false] at hp
-    rcases hp with rfl | rfl <;> simp [Cond.WF, arityOk, k1Sig, tupleResolves]
-  · intro _ specs r rest _
-    simp [k1Sig]
+  refine ⟨?_, by simp [k1Cfg]⟩
+  intro p hp
+  simp only [k1Cfg, List.mem_cons, List.not_mem_nil, or_false] at hp
+  rcases hp with rfl | rfl <;> simp [Cond.WF, arityOk, k1Sig, tupleResolves]
 
 /-- the full-strength statement fails at the witness -/
 theorem k1_counterexample : ¬ invoke_spec_full := by
